@@ -147,6 +147,22 @@ type vC11Harness struct {
 	frames  map[int32]*vC11Frame
 	byID    map[string][]*vC11Write
 	trace   []string
+	onRead  func(id string) // called (outside the lock) when the remote has read a request
+	sig     string          // signature override for the stream-discipline clauses (forced schedules)
+}
+
+// check evaluates a stream-discipline clause; in forced schedules the violation carries the
+// schedule's signature so that a known finding can be told apart from a new one.
+func (hs *vC11Harness) check(ok bool, clause, format string, args ...any) bool {
+	hs.c.Clause(clause)
+	if !ok {
+		sig := clause
+		if hs.sig != "" {
+			sig = hs.sig
+		}
+		hs.c.FailSig(clause, sig, format, args...)
+	}
+	return ok
 }
 
 func (hs *vC11Harness) logf(format string, args ...any) {
@@ -210,13 +226,13 @@ func (s *vC11Stream) Write(b []byte) (int, error) {
 			returned := oc == nil || oc.retSeq != 0 || ow.id == id
 			switch {
 			case o == s && returned:
-				hs.c.Check(false, "failed-exchange-resets-stream", "request %s written on %s although the exchange of %s on it (#%d) ended without its reply being read: the stream was reused, not reset", id, s.name(), ow.id, ow.seq)
+				hs.check(false, "failed-exchange-resets-stream", "request %s written on %s although the exchange of %s on it (#%d) ended without its reply being read: the stream was reused, not reset", id, s.name(), ow.id, ow.seq)
 				kill = true
 			case o == s:
-				hs.c.Check(false, "exchanges-serialized", "request %s written on %s while the exchange of %s (#%d, call still in flight) is outstanding on the same stream", id, s.name(), ow.id, ow.seq)
+				hs.check(false, "exchanges-serialized", "request %s written on %s while the exchange of %s (#%d, call still in flight) is outstanding on the same stream", id, s.name(), ow.id, ow.seq)
 				kill = true
 			case s.p.disconnects == 0:
-				hs.c.Check(false, "exchanges-serialized", "request %s written on %s while the exchange of %s (#%d) is outstanding on %s of the same peer (no OnDisconnect so far)", id, s.name(), ow.id, ow.seq, o.name())
+				hs.check(false, "exchanges-serialized", "request %s written on %s while the exchange of %s (#%d) is outstanding on %s of the same peer (no OnDisconnect so far)", id, s.name(), ow.id, ow.seq, o.name())
 			}
 		}
 	}
@@ -363,7 +379,7 @@ func (hs *vC11Harness) newStream(ctx context.Context, p peer.ID, protos []protoc
 	}
 	// every stream of an earlier sender generation may still be open; within one generation a
 	// new stream is opened only after the previous one was reset or closed
-	hs.c.Check(open <= vp.disconnects, "one-open-stream", "NewStream(%s) while %d outbound stream(s) to it are still open (%v) and only %d OnDisconnect call(s) were made", vp.name, open, names, vp.disconnects)
+	hs.check(open <= vp.disconnects, "one-open-stream", "NewStream(%s) while %d outbound stream(s) to it are still open (%v) and only %d OnDisconnect call(s) were made", vp.name, open, names, vp.disconnects)
 	if open+1 > vp.maxOpen {
 		vp.maxOpen = open + 1
 	}
@@ -407,6 +423,9 @@ func (hs *vC11Harness) serve(st *vC11Stream, resetOnOpen bool) {
 		hs.mu.Unlock()
 		hs.c.Obs("requests_read_by_remote", 1)
 		hs.c.Obs("remote_"+beh.Kind, 1)
+		if hs.onRead != nil {
+			hs.onRead(id)
+		}
 		switch beh.Hook {
 		case "cancel-on-read":
 			hs.cancelCall(id)
@@ -536,6 +555,46 @@ type vC11Scenario struct {
 	Scripts  [][]vC11Beh
 	SScripts [][]string
 	Discs    []time.Duration // OnDisconnect instants (peer chosen round-robin)
+	Forced   *vC11Forced
+}
+
+// vC11Forced is a forced interleaving: caller A's context ends exactly when it first waits on
+// the per-peer lock (its Done() is first consulted there), after caller B — started at that
+// very instant — has taken the lock and has its request read by the remote.
+type vC11Forced struct {
+	Creator    bool // A is the caller that creates the peer's sender (fresh peer); else a sender exists
+	AMessage   bool
+	BDelay     time.Duration
+	Later      int  // callers after A returned
+	Concurrent bool // later callers run concurrently
+	LaterThink time.Duration
+	DiscAtEnd  bool
+}
+
+// vC11TrigCtx is a context whose cancellation is placed at a boundary event: the first time
+// Done() is consulted it runs fire() and is cancelled from then on.
+type vC11TrigCtx struct {
+	context.Context
+	once sync.Once
+	fire func()
+	ch   chan struct{}
+}
+
+func (t *vC11TrigCtx) Done() <-chan struct{} {
+	t.once.Do(func() {
+		t.fire()
+		close(t.ch)
+	})
+	return t.ch
+}
+
+func (t *vC11TrigCtx) Err() error {
+	select {
+	case <-t.ch:
+		return context.Canceled
+	default:
+		return nil
+	}
 }
 
 func vC11GenScenario(c *vh.Case, bubble bool, T time.Duration) vC11Scenario {
@@ -637,6 +696,9 @@ func vC11Run(c *vh.Case, sc vC11Scenario, bubble bool) {
 		hs.order = append(hs.order, p)
 	}
 	hs.m = NewMessageSenderImpl(hs.h, []protocol.ID{"/verif/kad/1.0.0"})
+	if sc.Forced != nil && sc.Forced.Creator {
+		hs.sig = "orphaned-sender"
+	}
 
 	// pre-draw every caller's plan (the PRNG is not shared between goroutines)
 	type plan struct {
@@ -667,8 +729,14 @@ func vC11Run(c *vh.Case, sc vC11Scenario, bubble bool) {
 		}
 	}
 
+	if sc.Forced != nil {
+		hs.driveForced(sc)
+	}
 	var cwg sync.WaitGroup
 	for ci := range plans {
+		if sc.Forced != nil {
+			break
+		}
 		cwg.Add(1)
 		go func(ci int) {
 			defer cwg.Done()
@@ -759,7 +827,7 @@ func vC11Run(c *vh.Case, sc vC11Scenario, bubble bool) {
 					names = append(names, s.name())
 				}
 			}
-			c.Check(open <= 1, "one-open-stream", "at rest %d outbound streams to %s are open (%v) after %d OnDisconnect call(s)", open, p.name, names, p.disconnects)
+			hs.check(open <= 1, "one-open-stream", "at rest %d outbound streams to %s are open (%v) after %d OnDisconnect call(s)", open, p.name, names, p.disconnects)
 		}
 	} else {
 		c.Obs("rest_not_reached", 1)
@@ -811,7 +879,7 @@ func vC11Run(c *vh.Case, sc vC11Scenario, bubble bool) {
 		c.Logf("%s", l)
 	}
 	// non-trivial: concurrency on one peer or a failed exchange followed by further traffic
-	if nOK > 0 && (failedExchanges > 0 || nDisc > 0) && sc.Callers >= 2 {
+	if nOK > 0 && (failedExchanges > 0 || nDisc > 0 || sc.Forced != nil) && sc.Callers >= 2 {
 		h := sha256.Sum256([]byte(strings.Join(sigParts, ";")))
 		c.Nontrivial(fmt.Sprintf("%x", h[:8]))
 	}
@@ -831,6 +899,73 @@ func vC11Run(c *vh.Case, sc vC11Scenario, bubble bool) {
 	discCancel()
 	if bubble {
 		synctest.Wait()
+	}
+}
+
+// call performs one SendRequest / SendMessage and judges its return.
+func (hs *vC11Harness) call(ctx context.Context, id string, vp *vC11Peer, message bool, note string) {
+	cl := &vC11Call{id: id, p: vp, message: message, cancel: func() {}}
+	hs.mu.Lock()
+	hs.seq++
+	cl.startSeq = hs.seq
+	hs.calls[id] = cl
+	hs.logf("call %s -> %s (%s, %s)", id, vp.name, map[bool]string{true: "SendMessage", false: "SendRequest"}[message], note)
+	hs.mu.Unlock()
+	var resp *pb.Message
+	var err error
+	if message {
+		err = hs.m.SendMessage(ctx, vp.id, pb.NewMessage(pb.Message_ADD_PROVIDER, []byte(id), 0))
+	} else {
+		resp, err = hs.m.SendRequest(ctx, vp.id, pb.NewMessage(pb.Message_FIND_NODE, []byte(id), 0))
+	}
+	hs.judgeReturn(cl, resp, err)
+}
+
+// driveForced runs the forced interleaving described by sc.Forced against peer 0.
+func (hs *vC11Harness) driveForced(sc vC11Scenario) {
+	f := sc.Forced
+	vp := hs.order[0]
+	bg := context.Background()
+	if !f.Creator {
+		hs.call(bg, "W-0", vp, false, "warm-up: the peer's sender exists") // consumes script entry 0
+	}
+	bSeen := make(chan struct{})
+	var once sync.Once
+	hs.onRead = func(id string) {
+		if id == "B-0" {
+			once.Do(func() { close(bSeen) })
+		}
+	}
+	var bwg sync.WaitGroup
+	trig := &vC11TrigCtx{Context: bg, ch: make(chan struct{})}
+	trig.fire = func() {
+		bwg.Add(1)
+		go func() {
+			defer bwg.Done()
+			hs.call(bg, "B-0", vp, false, "started when A first consulted its context")
+			once.Do(func() { close(bSeen) })
+		}()
+		<-bSeen // B holds the per-peer lock and the remote has read its request (or B is over)
+	}
+	hs.call(trig, "A-0", vp, f.AMessage, "context ends when first consulted")
+	var lwg sync.WaitGroup
+	for i := 0; i < f.Later; i++ {
+		id := fmt.Sprintf("C-%d", i)
+		if f.Concurrent {
+			lwg.Add(1)
+			go func() {
+				defer lwg.Done()
+				hs.call(bg, id, vp, false, "later caller")
+			}()
+		} else {
+			hs.sleep(f.LaterThink)
+			hs.call(bg, id, vp, false, "later caller")
+		}
+	}
+	lwg.Wait()
+	bwg.Wait()
+	if f.DiscAtEnd {
+		hs.disconnect(vp)
 	}
 }
 
@@ -924,5 +1059,38 @@ func TestVerifRace_C11_twin(t *testing.T) {
 		func(c *vh.Case) {
 			sc := vC11GenScenario(c, false, dhtReadMessageTimeout)
 			vC11Run(c, sc, false)
+		})
+}
+
+// TestVerif_C11_forced places a cancellation at a boundary no timer can hit: the instant a
+// caller first waits for the per-peer lock.
+func TestVerif_C11_forced(t *testing.T) {
+	vh.Run(t, vh.Spec{Prop: "C11", Unit: "forced", Quick: 300, Thorough: 6000, CostMs: 4, WallS: 60,
+		Rule: "virtual time; forced interleaving on one peer: caller A (SendRequest, 25% SendMessage) passes a context that ends the first time it is consulted, i.e. exactly when A starts waiting for the per-peer lock; at that instant caller B is started and A's context ends once the remote has read B's request (B holds the lock, its reply is delayed 1-9 s); A is either the caller that creates the peer's sender (fresh peer, 2/3) or arrives at an existing one; then 1-4 later callers (sequential with 0-12 s think time, or concurrent), optional OnDisconnect at the end; remote answers promptly or with 0-2 s delay; same oracle as `bubble`; every case is non-trivial, distinct by (variant, delays, later callers, per-stream writes)",
+		Clauses: []string{"own-reply", "reply-from-carrying-transmission", "exchanges-serialized", "one-open-stream", "no-write-after-reset"}},
+		func(c *vh.Case) {
+			r := c.R
+			f := &vC11Forced{Creator: r.Intn(3) != 0, AMessage: r.Intn(4) == 0, BDelay: time.Duration(1000+r.Intn(8000)) * time.Millisecond,
+				Later: 1 + r.Intn(4), Concurrent: r.Intn(2) == 0, LaterThink: time.Duration(r.Intn(12000)) * time.Millisecond, DiscAtEnd: r.Intn(4) == 0}
+			sc := vC11Scenario{Callers: 2 + f.Later, Peers: 1, PerCall: 1, Forced: f}
+			var script []vC11Beh
+			for i := 0; i < 20; i++ {
+				b := vC11Beh{Kind: "prompt"}
+				if r.Intn(3) == 0 {
+					b = vC11Beh{Kind: "delay", Delay: time.Duration(r.Intn(2000)) * time.Millisecond}
+				}
+				script = append(script, b)
+			}
+			bIdx := 0
+			if !f.Creator {
+				bIdx = 1
+			}
+			script[bIdx] = vC11Beh{Kind: "delay", Delay: f.BDelay}
+			sc.Scripts = [][]vC11Beh{script}
+			sc.SScripts = [][]string{nil}
+			c.Set("forced", fmt.Sprintf("%+v", *f))
+			c.Bubble(t, time.Hour, "sender-hang", func(t *testing.T) {
+				vC11Run(c, sc, true)
+			})
 		})
 }
